@@ -65,3 +65,159 @@ package cmap
 //@   ensures [C14.map.len] result == at(L, len(m.m))
 //@   at call RLock#0 label L
 //@   at before call RUnlock#0 label U
+
+// ---- AtomicValue / atomicMap ----
+// tpadd is addition on the integer type parameter T (width unknown, so it is the model's wrapping addition).
+//@ pure func tpadd(a int, b int) int
+
+//@ type AtomicValue
+//@   lock lock protects value
+
+//@ func (*AtomicValue).Load
+//@   tags C14
+//@   requires a != nil
+//@   modifies nothing
+//@   ensures [C14.atomic.load] result == at(L, a.value) && at(U, a.value) == at(L, a.value)
+//@   at call RLock#0 label L
+//@   at before call RUnlock#0 label U
+
+//@ func (*AtomicValue).Store
+//@   tags C14
+//@   requires a != nil
+//@   ensures [C14.atomic.store] at(U, a.value) == v
+//@   at call Lock#0 label L
+//@   at before call Unlock#0 label U
+
+//@ func (*AtomicValue).Add
+//@   tags C14
+//@   requires a != nil
+//@   ensures [C14.atomic.add] result == tpadd(at(L, a.value), v) && at(U, a.value) == result
+//@   at call Lock#0 label L
+//@   at before call Unlock#0 label U
+
+//@ type atomicMap
+//@   lock lock protects items
+//@   lockinv lock self.items != nil
+
+//@ func (*atomicMap).Get
+//@   tags C14
+//@   requires a != nil
+//@   modifies nothing
+//@   ensures [C14.amap.get] result1 == at(L, haskey(a.items, key)) && (result1 ==> result == at(L, a.items[key])) && (!result1 ==> result == nil)
+//@   ensures [C14.amap.get.pure] at(U, a.items) == at(L, a.items)
+//@   at call RLock#0 label L
+//@   at before call RUnlock#0 label U
+
+//@ func (*atomicMap).GetOrCreate
+//@   tags C14
+//@   requires a != nil
+//@   ensures [C14.amap.goc.hit] at(L1, haskey(a.items, key)) ==> result == at(L1, a.items[key])
+//@   ensures [C14.amap.goc.hit2] (!at(L1, haskey(a.items, key)) && at(L2, haskey(a.items, key))) ==>
+//@        (result == at(L2, a.items[key]) && (forall j tp :: at(U2, haskey(a.items, j)) == at(L2, haskey(a.items, j)) && at(U2, a.items[j]) == at(L2, a.items[j])))
+//@   ensures [C14.amap.goc.create] (!at(L1, haskey(a.items, key)) && !at(L2, haskey(a.items, key))) ==>
+//@        (fresh(result) && result.value == createT && at(U2, haskey(a.items, key)) && at(U2, a.items[key]) == result
+//@         && (forall j tp :: j != key ==> (at(U2, haskey(a.items, j)) == at(L2, haskey(a.items, j)) && at(U2, a.items[j]) == at(L2, a.items[j]))))
+//@   ensures [C14.amap.goc.probe.pure] at(U1, a.items) == at(L1, a.items)
+//@   at call RLock#0 label L1
+//@   at before call RUnlock#0 label U1
+//@   at call Lock#0 label L2
+//@   at before call Unlock#0 label U2
+
+//@ func (*atomicMap).Delete
+//@   tags C14
+//@   requires a != nil
+//@   ensures [C14.amap.delete] forall j tp :: at(U, haskey(a.items, j)) == (j != key && at(L, haskey(a.items, j)))
+//@   ensures [C14.amap.delete.val] forall j tp :: j != key ==> at(U, a.items[j]) == at(L, a.items[j])
+//@   at call Lock#0 label L
+//@   at before call Unlock#0 label U
+
+//@ func (*atomicMap).Clear
+//@   tags C14
+//@   requires a != nil
+//@   ensures [C14.amap.clear] at(U, len(a.items)) == 0 && (forall j tp :: !at(U, haskey(a.items, j)))
+//@   at call Lock#0 label L
+//@   at before call Unlock#0 label U
+
+// ---- per-key RW-mutex map (C13): bookkeeping only ----
+// Lookups happen under at least the read lock, creation / Delete* / Clear under the write lock (guard:*
+// obligations); the per-key Unlock/RUnlock of the delete variants happens before the entry is removed, while
+// the write lock is held. The per-key mutexes themselves are not part of the monitor discipline: their
+// exclusion semantics is sync.RWMutex's (assumed).
+
+//@ type mutex
+//@   lock lock protects items
+//@   lockinv lock self.items != nil
+//@   lockinv lock forall k tp :: haskey(self.items, k) ==> self.items[k] != nil
+
+//@ func (*mutex).Lock
+//@   tags C13 C07
+//@   requires a != nil
+//@   ensures [C13.kmutex.lock.hit] at(L1, haskey(a.items, key)) ==> at(U1, a.items) == at(L1, a.items)
+//@   ensures [C13.kmutex.lock.create] !at(L1, haskey(a.items, key)) ==> (at(U2, haskey(a.items, key)) && at(U2, a.items[key]) != nil
+//@        && (at(L2, haskey(a.items, key)) ==> at(U2, a.items[key]) == at(L2, a.items[key]))
+//@        && (forall j tp :: j != key ==> (at(U2, haskey(a.items, j)) == at(L2, haskey(a.items, j)) && at(U2, a.items[j]) == at(L2, a.items[j]))))
+//@   at call RLock#0 label L1
+//@   at before call RUnlock#0 label U1
+//@   at call Lock#1 label L2
+//@   at before call Unlock#0 label U2
+
+//@ func (*mutex).RLock
+//@   tags C13 C07
+//@   requires a != nil
+//@   ensures [C13.kmutex.rlock.create] !at(L1, haskey(a.items, key)) ==> (at(U2, haskey(a.items, key)) && at(U2, a.items[key]) != nil
+//@        && (at(L2, haskey(a.items, key)) ==> at(U2, a.items[key]) == at(L2, a.items[key]))
+//@        && (forall j tp :: j != key ==> (at(U2, haskey(a.items, j)) == at(L2, haskey(a.items, j)) && at(U2, a.items[j]) == at(L2, a.items[j]))))
+//@   at call RLock#0 label L1
+//@   at call Lock#0 label L2
+//@   at before call Unlock#0 label U2
+
+//@ func (*mutex).Unlock
+//@   tags C13 C07
+//@   requires a != nil
+//@   ensures [C13.kmutex.unlock.pure] at(U, a.items) == at(L, a.items)
+//@   at call RLock#0 label L
+//@   at before call RUnlock#0 label U
+
+//@ func (*mutex).RUnlock
+//@   tags C13 C07
+//@   requires a != nil
+//@   ensures [C13.kmutex.runlock.pure] at(U, a.items) == at(L, a.items)
+//@   at call RLock#0 label L
+//@   at before call RUnlock#1 label U
+
+//@ func (*mutex).Delete
+//@   tags C13 C07
+//@   requires a != nil
+//@   ensures [C13.kmutex.delete] forall j tp :: at(U, haskey(a.items, j)) == (j != key && at(L, haskey(a.items, j)))
+//@   at call Lock#0 label L
+//@   at before call Unlock#0 label U
+
+//@ func (*mutex).DeleteUnlock
+//@   tags C13 C07
+//@   requires a != nil
+//@   ensures [C13.kmutex.deleteunlock] forall j tp :: at(U, haskey(a.items, j)) == (j != key && at(L, haskey(a.items, j)))
+//@   at call Lock#0 label L
+//@   at before call Unlock#1 label U
+//@   at before call Unlock#0 assert heldw(a.lock) && haskey(a.items, key)
+
+//@ func (*mutex).DeleteRUnlock
+//@   tags C13 C07
+//@   requires a != nil
+//@   ensures [C13.kmutex.deleterunlock] forall j tp :: at(U, haskey(a.items, j)) == (j != key && at(L, haskey(a.items, j)))
+//@   at call Lock#0 label L
+//@   at before call Unlock#0 label U
+//@   at before call RUnlock#0 assert heldw(a.lock) && haskey(a.items, key)
+
+//@ func (*mutex).Clear
+//@   tags C13 C07
+//@   requires a != nil
+//@   ensures [C13.kmutex.clear] forall j tp :: !at(U, haskey(a.items, j))
+//@   at call Lock#0 label L
+//@   at before call Unlock#0 label U
+
+//@ func (*mutex).ItemCount
+//@   tags C13 C07
+//@   requires a != nil
+//@   ensures [C13.kmutex.count] result == at(L, len(a.items))
+//@   at call Lock#0 label L
+//@   at before call Unlock#0 label U
